@@ -82,7 +82,21 @@ func Payload(p lorawan.Payload, foptsLen int) string {
 	case *lorawan.DataPayload:
 		return "(PLData " + cq.Bytes(v.Bytes) + ")"
 	}
+	if b, err := p.MarshalBinary(); err == nil { // a caller-defined lorawan.Payload: the bytes it marshals to
+		return "(PLData " + cq.Bytes(b) + ")"
+	}
 	return fmt.Sprintf("(PLUnknown_%T)", p)
+}
+
+// Opaque is a lorawan.Payload implementation that does not come from the library (the interface is
+// exported and open; the application-layer Command types satisfy it too). Encoders must treat it like
+// any other element: by the bytes its MarshalBinary returns.
+type Opaque struct{ B []byte }
+
+func (o *Opaque) MarshalBinary() ([]byte, error) { return append([]byte{}, o.B...), nil }
+func (o *Opaque) UnmarshalBinary(uplink bool, data []byte) error {
+	o.B = append([]byte{}, data...)
+	return nil
 }
 
 // Phy prints a PHYPayload (type LW.Frame.Model.phy).
